@@ -761,6 +761,12 @@ def run(chk, P):
     chk.floor('R12.9', 1)
     r12_10(chk, P)
     chk.floor('R12.10', 3)
+    chk.rule('R12.12', 'a seek after a failure really seeks: the seek entry points answer 0 only after a repositioning call (same '
+             'obligations as R08.14) -- the position a failed seek left behind (-1, or the total when a read error was mapped to end '
+             'of stream) is never taken for the place the decoder stands on')
+    from rules import c08
+    c08.r08_14(common.Proxy(chk, 'R12.12'), P, rule='R12.12')
+    chk.floor('R12.12', 5)
     r12_11(chk, P)
     chk.floor('R12.11', 6)
     E, C = io_sets(P)
